@@ -91,8 +91,9 @@ def make_machine(col, pp, profile, monitor):
 
     def mk(kind):
         def body(self, data):
-            op = GENS[kind](self.world, data.draw, profile)
-            self.do(op)
+            for _ in range(profile.get('repeat', {}).get(kind, 1)):
+                op = GENS[kind](self.world, data.draw, profile)
+                self.do(op)
         return body
 
     attrs = {}
